@@ -1429,7 +1429,7 @@ func Count(s, substr string) int {
 	if len(substr) == 0 {
 		return utf8.RuneCountInString(s) + 1
 	}
-	if len(substr) == 1 {
+	if len(substr) == 1 && substr[0] < utf8.RuneSelf {
 		c := substr[0]
 		n := bytealg.CountString(s, c)
 		switch c {
